@@ -262,6 +262,43 @@ def run_scenario(ctx, base, sc):
         sim.shutdown()
 
 
+def fault_sweep(ctx, base, sc):
+    """the same transfer with a database error injected at its k-th statement, for every k: completion and the healthy destination
+    record are one index transaction, so whatever the fault leaves, a completed request has its healthy copy (and vice versa)"""
+    content = w.content_of(5, sc["size"])
+    spec = {"groups": [{"name": "gs"}, {"name": "gd"}],
+            "nodes": [{"name": "s", "group": "gs", "stype": sc["src_type"], "host": "h1", "active": True, "username": "u", "address": "h1.example"},
+                      {"name": "d", "group": "gd", "stype": sc["dst_type"], "host": "h1" if sc["local"] else "h2"}],
+            "acqs": ["acq"], "files": [{"acq": "acq", "name": sc["name"], "size": sc["size"], "tag": 5}],
+            "copies": [{"file": 0, "node": "s", "has": "Y", "wants": "Y"}] + ([{"file": 0, "node": "d", "has": "X", "wants": "Y", "disk": "corrupt"}] if sc["pre"] == "rec_X" else []),
+            "reqs": [{"file": 0, "from": "s", "to": "gd"}]}
+    host = "h1" if sc["local"] else "h2"
+    n = None
+    k = 0
+    while n is None or k <= n:
+        sim = daemon.Sim(base, spec)
+        sim.set_tools(*[sc["tools"][0]], **sc["tools"][1])
+        try:
+            res = sim.iterate(host, sql_fault_at=(k or None))
+            if n is None:
+                n = len(res["sql"])
+                if not w.ArchiveFileCopyRequest.get(id=1).completed:
+                    return 0
+            req = w.ArchiveFileCopyRequest.get(id=1)
+            dcopy = w.ArchiveFileCopy.get_or_none(file=sim.files[0][0], node=sim.nodes["d"])
+            healthy = dcopy is not None and dcopy.has_file == "Y"
+            ctx.count("transfer-db-fault")
+            rp = {"family": "transfer-db-fault", "scenario": sc, "fault_at_statement": k, "statements": n}
+            if bool(req.completed) != healthy:
+                ctx.fail("C02:completion-and-copy-not-one-transaction", f"database error at statement {k} of {n} of the transfer: request completed={bool(req.completed)}, destination copy {dcopy and dcopy.has_file}", rp)
+            if res["error"] and res["error"] != "crash" and "OperationalError" not in res["error"]:
+                ctx.fail("C02:daemon-died", f"database error at statement {k}: the daemon died: {res['error'][:200]}", rp)
+        finally:
+            sim.shutdown()
+        k += 1
+    return n
+
+
 def explore(ctx, n=None):
     base = ctx.tmp() / "sim"
     n = n or (260 if ctx.quick() else 6000)
@@ -299,6 +336,11 @@ def explore(ctx, n=None):
         keep.append(sc)
         if k in (0, len(corpus)):
             ctx.sample({"scenario": sc, "completed": done, "route": t})
+    for sc in ({"local": True, "src_type": "A", "dst_type": "A", "tools": ("both", {}), "pre": "absent", "name": "f", "size": 150},
+               {"local": False, "src_type": "F", "dst_type": "A", "tools": ("rsync", {}), "pre": "rec_X", "name": "sub/f", "size": 150},
+               {"local": False, "src_type": "F", "dst_type": "A", "tools": ("bbcp", {}), "pre": "absent", "name": "f", "size": 1}):
+        if fault_sweep(ctx, base, sc) == 0:
+            ctx.broke("harness", "fault sweep", f"the fault-free transfer of {sc} did not complete")
     ctx.cov["routes"] = routes
     ctx.cov["requests_completed"] = completed
     bad = core.run_cases(ctx, "transfer", "Corr.C02", "case", "check", terms, shard=300, extra_imports=("Model.Pull",))
